@@ -1029,9 +1029,10 @@ theorem honestAnswer_sub (cfg : Cfg P) (net : Net P) (c x : P) (h : x ∈ honest
   have h2 := List.mem_filter.1 this
   exact ⟨h2.1, by simpa using h2.2⟩
 
-theorem ingest_honest (cfg : Cfg P) (net : Net P) (c : P) :
+theorem ingest_honest (cfg : Cfg P) (hdiv : cfg.divLimit = 0) (net : Net P) (c : P) :
     ingest cfg (fun _ => true) (honestAnswer cfg net c) = honestAnswer cfg net c := by
-  unfold ingest
+  unfold ingest divFilter
+  simp only [hdiv, beq_self_eq_true, ↓reduceIte]
   have hl : (honestAnswer cfg net c).length ≤ 2 * cfg.K := by
     unfold honestAnswer; rw [List.length_take]; omega
   rw [List.take_of_length_le hl]
@@ -1065,7 +1066,7 @@ theorem decide_honest (cfg : Cfg P) (net : Net P) (s : LState P) (stop : Bool) (
       · simp only [hin, ↓reduceIte] at hq hy
         exact h.absorbed e he hq y hy
 
-theorem step_honest (cfg : Cfg P) (net : Net P) (stop : LState P → Bool) (s s' : LState P) (p : P)
+theorem step_honest (cfg : Cfg P) (hdiv : cfg.divLimit = 0) (net : Net P) (stop : LState P → Bool) (s s' : LState P) (p : P)
     (hb : Inv cfg s) (h : HonestInv cfg net s)
     (hs : step cfg (fun _ => true) stop s (.deliver p (.resp (honestAnswer cfg net p))) = .ok s') : HonestInv cfg net s' := by
   by_cases ht : s.terminated.isSome = true
@@ -1079,7 +1080,7 @@ theorem step_honest (cfg : Cfg P) (net : Net P) (stop : LState P → Bool) (s s'
     · rw [step_deliver_eq cfg _ stop s p _ hb hnone hp] at hs
       cases hs
       apply decide_honest
-      simp only [outcomeHeard, outcomeState, ingest_honest]
+      simp only [outcomeHeard, outcomeState, ingest_honest cfg hdiv]
       refine ⟨?_, ?_⟩
       · intro x hx
         obtain ⟨e, he, rfl⟩ := (mem_setState _ _ _ _).1 hx
@@ -1120,7 +1121,7 @@ theorem start_inv4 (cfg : Cfg P) (stop : LState P → Bool) (seeds : List P) (s 
   cases hs
   exact decide_inv4 cfg _ _ ⟨(by intro hc; cases hc), (by intro hc; cases hc)⟩
 
-theorem runEvs_honest (cfg : Cfg P) (net : Net P) (stop : LState P → Bool) (s s' : LState P) (evs : List (Ev P))
+theorem runEvs_honest (cfg : Cfg P) (hdiv : cfg.divLimit = 0) (net : Net P) (stop : LState P → Bool) (s s' : LState P) (evs : List (Ev P))
     (hsched : HonestSched cfg net evs) (hb : Inv cfg s) (h : HonestInv cfg net s)
     (hs : runEvs cfg (fun _ => true) stop s evs = .ok s') : HonestInv cfg net s' := by
   induction evs generalizing s with
@@ -1129,7 +1130,7 @@ theorem runEvs_honest (cfg : Cfg P) (net : Net P) (stop : LState P → Bool) (s 
     obtain ⟨s1, h1, hi1⟩ := step_ok cfg (fun _ => true) stop s e hb
     simp only [runEvs, h1, bind, Except.bind] at hs
     obtain ⟨p, rfl⟩ := hsched e (by simp)
-    exact ih s1 (fun e he => hsched e (by simp [he])) hi1 (step_honest cfg net stop s s1 p hb h h1) hs
+    exact ih s1 (fun e he => hsched e (by simp [he])) hi1 (step_honest cfg hdiv net stop s s1 p hb h h1) hs
 
 theorem start_honest (cfg : Cfg P) (net : Net P) (stop : LState P → Bool) (seeds : List P) (s : LState P)
     (hs : start cfg stop seeds = .ok s) : HonestInv cfg net s := by
@@ -1146,7 +1147,7 @@ theorem start_honest (cfg : Cfg P) (net : Net P) (stop : LState P → Bool) (see
     · cases h1
     · rw [h1] at hq; cases hq
 
-theorem namedBy_honest (cfg : Cfg P) (net : Net P) (hn : NetOK cfg net) (evs : List (Ev P))
+theorem namedBy_honest (cfg : Cfg P) (hdiv : cfg.divLimit = 0) (net : Net P) (hn : NetOK cfg net) (evs : List (Ev P))
     (hsched : HonestSched cfg net evs) (q : P) (hq : q ∈ namedBy cfg (fun _ => true) evs) : q ∈ net.peers := by
   induction evs with
   | nil => cases hq
@@ -1154,7 +1155,7 @@ theorem namedBy_honest (cfg : Cfg P) (net : Net P) (hn : NetOK cfg net) (evs : L
     obtain ⟨p, rfl⟩ := hsched e (by simp)
     simp only [namedBy, List.mem_append] at hq
     rcases hq with h1 | h1
-    · rw [ingest_honest] at h1
+    · rw [ingest_honest cfg hdiv] at h1
       exact hn.closed p q (honestAnswer_sub cfg net p q h1).1
     · exact ih (fun e he => hsched e (by simp [he])) h1
 
@@ -1176,7 +1177,7 @@ def Converging (cfg : Cfg P) (net : Net P) : Prop :=
 
 /-- Convergence: in a converging network where everybody answers honestly, a lookup that ran to completion
     returns the globally nearest peer first. -/
-theorem nearest_first_core (cfg : Cfg P) (ho : OrderOK cfg) (net : Net P) (hn : NetOK cfg net) (hconv : Converging cfg net)
+theorem nearest_first_core (cfg : Cfg P) (hdiv : cfg.divLimit = 0) (ho : OrderOK cfg) (net : Net P) (hn : NetOK cfg net) (hconv : Converging cfg net)
     (hβ : 1 ≤ cfg.β) (hK : 1 ≤ cfg.K) (stop : LState P → Bool) (seeds : List P) (hseeds : ∀ p ∈ seeds, p ∈ net.peers)
     (evs : List (Ev P)) (hsched : HonestSched cfg net evs) (s0 s : LState P)
     (h0 : start cfg stop seeds = .ok s0) (h1 : runEvs cfg (fun _ => true) stop s0 evs = .ok s)
@@ -1186,7 +1187,7 @@ theorem nearest_first_core (cfg : Cfg P) (ho : OrderOK cfg) (net : Net P) (hn : 
   rw [h0] at h0'; cases h0'
   obtain ⟨s', h1', hinv⟩ := runEvs_ok cfg (fun _ => true) stop s0 evs hi0
   rw [h1] at h1'; cases h1'
-  have hhon := runEvs_honest cfg net stop s0 s evs hsched hi0 (start_honest cfg net stop seeds s0 h0) h1
+  have hhon := runEvs_honest cfg hdiv net stop s0 s evs hsched hi0 (start_honest cfg net stop seeds s0 h0) h1
   have h4 := runEvs_inv4 cfg (fun _ => true) stop s0 s evs hi0 (start_inv4 cfg stop seeds s0 h0) h1
   have hlt := h4.completed hterm
   -- every known peer belongs to the network
@@ -1194,7 +1195,7 @@ theorem nearest_first_core (cfg : Cfg P) (ho : OrderOK cfg) (net : Net P) (hn : 
     intro q hq
     rcases runEvs_ids cfg (fun _ => true) stop s0 s evs hi0 h1 q hq with h2 | h2
     · exact hseeds q (start_ids cfg stop seeds s0 h0 q h2)
-    · exact namedBy_honest cfg net hn evs hsched q h2
+    · exact namedBy_honest cfg hdiv net hn evs hsched q h2
   -- the candidate list is non-empty; call its head c0
   cases hc : candidates cfg s.ps notUnreachable with
   | nil => exact absurd (by show (candidates cfg s.ps notUnreachable).take cfg.K = []; rw [hc]; simp) hne
